@@ -231,7 +231,7 @@ func (g *gctx) scalar() vals.V {
 	case 1:
 		return vals.Num(rapid.SampledFrom(vals.NumericKinds).Draw(g.t, "nk"), rapid.SampledFrom([]string{"1", "7", "42", "100"}).Draw(g.t, "nv"))
 	case 2:
-		return vals.Num("float64", rapid.SampledFrom([]string{"1.5", "0.25", "3", "-2.5"}).Draw(g.t, "fv"))
+		return vals.Num(rapid.SampledFrom([]string{"float64", "float64", "float32"}).Draw(g.t, "fk"), rapid.SampledFrom([]string{"1.5", "0.25", "3", "-2.5", "1000000", "1e21", "0.00001", "123456789.5", "2.5e-7", "100000", "1e6", "16777216"}).Draw(g.t, "fv"))
 	case 3:
 		return vals.Bool(true)
 	default:
@@ -498,6 +498,11 @@ var corpus = []Case{
    this</pre><textarea name="t">a  b</textarea>`, Entry: "string"},
 	{Source: `<script>if (a<b && c>d) { s = "&amp;"; }</script><style>a > b { content: "<" }</style>`, Entry: "string"},
 	{Source: `<a href="/q?a=1&amp;b=2&amp;copy=3">x</a>`, Entry: "string"},
+	{Source: `<p title="[{{ h1 }}]" :lang="h1">v={{ h1 }};</p>`, Entry: "string", Data: map[string]vals.V{"h1": vals.Num("float64", "1e6")}, Bound: map[string]string{"h1": "lang"}},
+	{Source: `<p title="[{{ h1 }}]" :lang="h1">v={{ h1 }};</p>`, Entry: "string", Data: map[string]vals.V{"h1": vals.Num("float64", "0.00001")}, Bound: map[string]string{"h1": "lang"}},
+	{Source: `<p title="[{{ h1 }}]" :lang="h1">v={{ h1 }};</p>`, Entry: "string", Data: map[string]vals.V{"h1": vals.Num("float32", "16777216")}, Bound: map[string]string{"h1": "lang"}},
+	{Source: `<p title="[{{ h1 }}]" :lang="h1">v={{ h1 }};</p>`, Entry: "string", Data: map[string]vals.V{"h1": vals.Num("uint64", "18446744073709551615")}, Bound: map[string]string{"h1": "lang"}},
+	{Source: `<p title="[{{ h1 }}]" :lang="h1">v={{ h1 }};</p>`, Entry: "string", Data: map[string]vals.V{"h1": vals.Num("int64", "-9223372036854775808")}, Bound: map[string]string{"h1": "lang"}},
 }
 
 func TestProp(t *testing.T) {
